@@ -101,6 +101,8 @@ fn omit_spaces_around(component: &ComplexSelectorComponent) -> bool {
 
 impl ComplexSelector {
     pub fn new(components: Vec<ComplexSelectorComponent>, line_break: bool) -> Self {
+        #[cfg(grass_verif)]
+        crate::verif::point(crate::verif::Site::ComplexSelectorId);
         Self {
             components,
             line_break,
